@@ -195,4 +195,34 @@ PROPS = {
         "exhaustive_parts": "per base every listed component x perturbation kind is enumerated; bases are random samples",
         "assumptions": COMMON_ASSUME + ["mathlib group arithmetic for building perturbed elements", "aggregating a single signature / witness is answered by an explicit library panic (local misuse) and is not generated"],
     },
+    "C06": {
+        "module": "core", "pkg": "./checks", "level": "exploration",
+        "jobs": [
+            {"test": "TestC06", "quick": 1500, "thorough": 60000, "shards_thorough": 14},
+        ],
+        "rule": "Full stack with spy backends: universe of 3..7 nodes with distinct 16-bit node identifiers (boundary-biased), party identifiers with "
+                "generated collisions (1..3 replicas per party; identity maps <= 20%), participants = one replica per chosen party (valid) or two "
+                "replicas of one party (refusal clause), KeyGen and Sign, loud and silent, schedule. Oracle: (a) Init list == sorted party identifiers "
+                "of the participants; (b) every OnMsg source == party identifier of the node that emitted the payload; (c) every point-to-point "
+                "emission appears as exactly one MPC frame, addressed to the node that represents the addressed party in this session; (d) with two "
+                "selected replicas of one party nobody succeeds and no backend is initialised. Non-trivial = the map is not the identity on the "
+                "participants. Distinct = (map, participants, operation, mode).",
+        "assumptions": COMMON_ASSUME,
+    },
+    "C12": {
+        "module": "core", "pkg": "./checks", "level": "exploration",
+        "jobs": [
+            {"test": "TestC12", "quick": 700, "thorough": 30000, "shards_thorough": 14},
+        ],
+        "rule": "Stateful, model-based: rapid draws a list of 2..8 operations on one cluster of 3..4 nodes (+ a configured outsider and an unknown "
+                "node), loud or silent: KeyGen by all / all but one, Sign(topic in {t0,t1}) complete / one signer missing / cancelled after k "
+                "deliveries, two Signs on different topics concurrently, a second Sign on a topic that is still running, replay of recorded frames of "
+                "earlier sessions, frames from the outsider / unknown node; every attempt runs to its (virtual) deadline and the queues are drained. "
+                "Model: an attempt in which all participants take part and nobody cancels succeeds - also on a topic whose previous attempt failed, "
+                "timed out or was cancelled (retry admitted), and when another topic runs concurrently; a concurrent duplicate on the same topic is "
+                "refused at once and leaves the first untouched. Tape oracle: no backend instance is handed a message attributed to a "
+                "non-participant, or after its session's API call returned. Non-trivial = the history has a retry after a failed attempt, "
+                "overlapping sessions, or late/foreign frames. Distinct = hash of the whole case.",
+        "assumptions": COMMON_ASSUME + ["late frames are delivered between attempts, not while a new session on the same topic runs (the wire format has no session identifier)"],
+    },
 }
